@@ -98,6 +98,36 @@ def main():
                 {"scenario": scs[i], "impl_total_per_snapshot": [o["tx"][0][1] for o in impl[i]["obs"] if o["s"] == 0], "packages": impl[i]["packages"],
                  "how": "harness/impl/simlib.py on the real FlumineSimulation"})
     # lock (trusted) - a test, not a proof
+    # ---- live count sites: packages of 1-3 placements answered per instruction (SUCCESS / FAILURE / TIMEOUT) or refused as a whole (an answer
+    #      without instruction reports): the client's counters grow by the number of instructions submitted whatever the shape of the answer
+    lcases, lsizes = [], []
+    for _ in range(120 if thorough else 40):
+        steps = [["book", "OPEN"]]
+        sizes = []
+        for _ in range(rng.randrange(1, 4)):
+            k = rng.randrange(1, 4)
+            steps.append(["txn", [["place", 0, rng.choice([101, 202]), "BACK", 200, 500, None, False] for _ in range(k)]] if k > 1 else ["place", 0, 101, "BACK", 200, 500, None, False])
+            out = {"reports": [{"status": rng.choice(["SUCCESS", "SUCCESS", "FAILURE", "TIMEOUT"])} for _ in range(k)], "perm": "id"}
+            if rng.random() < 0.35:
+                out["place_reports"] = "none"
+            steps.append(["deliver", 0, out])
+            sizes.append(k)
+        lcases.append({"strategies": 1, "steps": steps})
+        lsizes.append(sizes)
+    louts = run_impl_parallel("livelib", [{"job": "exec", "cases": ch} for ch in chunked(lcases, 10)], timeout=3600)
+    lres = [r for o in louts for r in o["out"]]
+    lbad = []
+    for i, (c, r, sizes) in enumerate(zip(lcases, lres, lsizes)):
+        want, k = 0, 0
+        for ob, step in zip(r, c["steps"]):
+            if step[0] == "deliver":
+                want += sizes[k]; k += 1
+                if ob["tx"][0] != want:
+                    lbad.append((i, ob["tx"], want)); break
+    ck.family("live_place_count_sites", len(lcases), len(lcases), [], [i for i, *_ in lbad], dist={"packages": sum(len(x) for x in lsizes)})
+    for i, tx, want in lbad[:2]:
+        ck.fail("C18-live-count", "live placement packages answered: the client's counters read %s, %d placement instructions were submitted in answered calls" % (tx, want),
+                {"case": lcases[i], "counters": tx, "submitted": want, "how": "harness/impl/livelib.py job exec (real BetfairExecution against an exchange double)"})
     to = run_impl("c18", {"job": "threads", "n": 20000 if thorough else 4000, "threads": 16})["out"]
     okT = to["total"] == to["expected"]
     ck.family("threads_lock_test", to["expected"], 2, [], [] if okT else ["lost"], dist=to)
